@@ -47,11 +47,14 @@ PROPS = {
     },
     "C02": {"theorems": props_theorems("C02") + C01_CORE + TIE_KMER + TIE_LETTERS, "partial": []},
     "C03": {"theorems": props_theorems("C03") + TIE_LETTERS, "partial": []},
-    "C04": {"theorems": props_theorems("C04") + C01_CORE + TIE_KMER, "partial": []},
-    "C08": {"theorems": props_theorems("C08") + C01_CORE + TIE_KMER, "partial": []},
-    "C11": {"theorems": props_theorems("C11"), "partial": []},
+    "C04": {"theorems": props_theorems("C04") + C01_CORE + TIE_KMER + T("KtVerif.Props.FloatLemmas", ["f64OfNat_exact", "f64Div_nat_err", "f64Div_zero", "fmt6_quotient_correct", "fmt6_length"]), "partial": []},
+    "C08": {"theorems": props_theorems("C08") + C01_CORE + TIE_KMER + T("KtVerif.Props.FloatLemmas", ["covBinF64_eq_div", "fmt6_quotient_correct"]), "partial": []},
+    "C11": {"theorems": props_theorems("C11") + T("KtVerif.Props.FloatLemmas", ["roundDiv_err", "f64OfNat_exact"]), "partial": []},
     "C12": {"theorems": props_theorems("C12") + C01_CORE + TIE_KMER, "partial": []},
+    "C05": {"theorems": props_theorems("C05"), "partial": []},
+    "C14": {"theorems": props_theorems("C14") + T("KtVerif.Props.FloatLemmas", ["fmt6_length", "f64Div_le_one"]), "partial": []},
     "C06": {"theorems": props_theorems("C06"), "partial": []},
+    "C07": {"theorems": props_theorems("C07") + C01_CORE + TIE_KMER, "partial": []},
     "C09": {"theorems": props_theorems("C09", "C09b") + TIE_MIN, "partial": []},
     "C18": {"theorems": props_theorems("C18") + TIE_KMIN + TIE_MIN, "partial": []},
 }
